@@ -1360,3 +1360,9 @@ func calleePkgPath(f *ssa.Function) string {
 	}
 	return ""
 }
+
+var _ = late(func() {
+	// C02-r7m3: a lost child pointer (rotateRight shifting children one short) makes an iterator walk into a nil child
+	properties["C02"].Rules = append(properties["C02"].Rules,
+		&Rule{ID: "C02.children-one-more", Floor: 4, Clause: "same rule as C03.children-one-more: a node with n keys has n+1 children wherever keys and children are shifted together - an iterator that reaches a node whose last child pointer was dropped dereferences nil or skips the subtree's keys", Run: ruleChildrenOneMore})
+})
